@@ -1,6 +1,40 @@
-import TshVerif.Model.ConvBash
-import TshVerif.Model.ConvBatch
+/-
+  C16 - Every emitted script is well-formed for its interpreter.
+
+  Proved here (bash part), about the model of transpiler.go + converters/bash/converter.go that the
+  check ties to the code byte for byte, for EVERY well-formed AST:
+    * `script_shape`: after the shebang and the helper routines the script is a sequence of the grammar
+      `Shape .blk` (Lemmas/BashShape.lean): every `if … then` has a NON-EMPTY body, optional
+      `elif`/`else` parts with non-empty bodies and its own `fi`; every loop is `_fv<n>=`,
+      `while true; do`, an optional guarded increment with a non-empty body, the condition
+      statements, the exit test, a non-empty body, `done`; every function is `name() {`, the
+      parameter copies, a non-empty body, `}`  (an empty compound command is what `bash -n` rejects;
+      an empty block gets the `:` no-op);
+    * `script_balanced`: nesting depth returns to 0 (openers and closers match up);
+    * `bodies_start_with_a_command`: a body never starts with a closer.
+  The batch part and `bash -n` itself are decided by the structural oracles of the check.
+-/
+import TshVerif.Props.C01
 namespace Tsh.C16
-open Tsh
+open Tsh Tsh.Tr Tsh.Bash
+
+/-- **The script follows the block grammar.** -/
+theorem script_shape (p : Program) (hw : wfStmts p = true) (ls : List Line) (h : compile p = .ok ls) :
+    ∃ (st : St) (body : List Line) (n : Nat), ls = .shebang :: (helperLines st ++ body) ∧ Shape .blk 0 n body :=
+  C01.compile_shape p hw ls h
+
+/-- **Balanced compound commands.** -/
+theorem script_balanced (p : Program) (hw : wfStmts p = true) (ls : List Line) (h : compile p = .ok ls) :
+    ∃ (st : St) (body : List Line), ls = .shebang :: (helperLines st ++ body) ∧ depthSum body = 0 := by
+  obtain ⟨st, body, n, hl, hs⟩ := C01.compile_shape p hw ls h
+  exact ⟨st, body, hl, hs.balanced⟩
+
+/-- a command sequence of the grammar never starts with `fi`, `else`, `elif`, `done` or `}` -/
+theorem bodies_start_with_a_command {lo hi : Nat} {l : Line} {rest : List Line} (h : Shape .blk lo hi (l :: rest)) :
+    l.isCloser = false := h.head_not_closer rfl l rest rfl
+
+/-- an empty block is emitted as the no-op, never as nothing -/
+theorem empty_block_is_nop (s : St) : evalBlock conv [] s = .ok ((), { s with code := .nop :: s.code }) := by
+  unfold evalBlock; rfl
 
 end Tsh.C16
